@@ -1496,6 +1496,7 @@ impl Mut {
         if cfg.scenario == "msblocks" {
             return self.run_msblocks();
         }
+
         if cfg.scenario == "fork" && self.idx != 0 {
             return self.run_gc_requester(ops);
         }
@@ -1554,7 +1555,11 @@ impl Mut {
                 self.drop_root(SCRATCH);
                 continue;
             }
-            if cfg.resolve && cfg.heap_mb >= 48 && cfg.collects() && !cfg.off("los") && self.rng.chance(1, 400) {
+            // KNOWN FINDING (C03): under a discontiguous layout PageProtect's page resource decides
+            // whether to unprotect a multi-chunk grant by looking at its first chunk only; only the
+            // dedicated finding shard allocates multi-chunk objects there.
+            let multi_chunk_ok = !(cfg.plan == "PageProtect" && cfg.layout == "map32") || scen.starts_with("finding-");
+            if cfg.resolve && multi_chunk_ok && cfg.heap_mb >= 48 && cfg.collects() && !cfg.off("los") && self.rng.chance(1, 400) {
                 // a large object spanning several chunks, dropped right away (C31: multi-chunk regions
                 // are acquired and, under a discontiguous layout, freed as a whole)
                 let size = (4usize << 20) + (1 << 20) * (1 + self.rng.usize_below(5)) + 4096 * self.rng.usize_below(100);
